@@ -716,11 +716,13 @@ def coq_hobj(d, dump=None):
         mitems = sorted(m.items()) if isinstance(m, dict) else [(a, b) for a, b in m]
         flds.append(("M", "(hmap false TS (TI KI64) %s)" % coq_list(["(%s, %s)" % (coq_value(tv_str(a)), coq_value(tv_int("i64", int(b)))) for a, b in mitems])))
         flds.append(("SL", "(hseq false false (TI KI32) %s)" % coq_list([coq_value(tv_int("i32", int(x))) for x in (src.get("sl") or [])])))
-        flds.append(("AR", "(hseq false true (TU KU8) %s)" % coq_list([coq_value(tv_int("u8", int(x))) for x in (src.get("ar") or [0, 0, 0])])))
+        # an array FIELD of a struct injected by pointer is addressable: it behaves as a fixed-length slice;
+        # inside a struct injected by value it is a plain (unaddressable) array
+        flds.append(("AR", "(hseq false %s (TU KU8) %s)" % (coq_bool(k != "struct"), coq_list([coq_value(tv_int("u8", int(x))) for x in (src.get("ar") or [0, 0, 0])]))))
         return "(hstruct %s %s %s)" % (coq_bool(k == "struct"), coq_fields(flds), coq_list([coq_fdesc(n, s) for n, s in HOST_METHODS.items()]))
     if k in ("map", "pmap"):
-        keys = dump["keys"] if dump else d["keys"]
-        elems = dump["elems"] if dump else d["elems"]
+        keys = (dump.get("keys") if dump else d.get("keys")) or []
+        elems = (dump.get("elems") if dump else d.get("elems")) or []
         return "(hmap %s (%s) (%s) %s)" % (coq_bool(k == "pmap"), COQ_STY[d["kt"]], COQ_STY[d["et"]],
                                            coq_list(["(%s, %s)" % (coq_value(a), coq_value(b)) for a, b in zip(keys or [], elems or [])]))
     elems = (dump.get("elems") if dump else d["elems"]) or []
@@ -971,7 +973,24 @@ class ExprGen:
         t = r.choice(INT_T + UINT_T + FLOAT_T)
         fn = "Id" + t.upper()
         self.funcs.add(fn)
-        return acall(call("func", fn, [as_arg(emath(self.num(1)))]))
+        # arguments stay small and dyadic: float -> integer / float32 parameter conversions are only
+        # defined (and only promised by C03) for representable values
+        return acall(call("func", fn, [as_arg(emath(self.small_num(1)))]))
+
+    def small_num(self, depth):
+        r = self.rng
+        if depth <= 0 or r.random() < 0.4:
+            x = r.random()
+            if x < 0.5:
+                return matom(const(kint(r.randint(0, 9))))
+            if x < 0.7:
+                return matom(const(kreal(r.choice(["0.5", "2.25", "1.5", "3.0", "7.75"]))))
+            t = r.choice(["i8", "u8", "i32", "f32"])
+            self.n += 1
+            name = "s%d" % self.n
+            self.vars[name] = tv_int(t, r.randint(0, 9)) if t != "f32" else tv_float("f32", r.choice([0.5, 2.0, 3.25]))
+            return matom(var(name))
+        return mk_mbin(r.choice("+*+"), self.small_num(depth - 1), self.small_num(depth - 1))
 
     def num(self, depth):
         r = self.rng
@@ -1148,3 +1167,90 @@ class StmtGen:
         if r.random() < p:
             ret = ("bare",) if r.random() < 0.25 else ("expr", emath(self.num(1)))
         return block(stmts, ret)
+
+
+# ---------------------------------------------------------------- common check flow for the rule-level family
+SYMPTOM_L = {0: "tree", 1: "class", 2: "value", 3: "cites", 4: "calls", 5: "store", 6: "compile"}
+
+
+def lang_check(run, pid, make_cases, rule_text, assumptions, nontrivial, focus_codes=None, classify=None):
+    """build, prove, run the campaign, compare inside Coq, report.
+    nontrivial(case, obs) -> hashable key or None; focus_codes: the disagreement codes that decide THIS property
+    (other codes are still reported: any model/implementation disagreement means the theorems no longer describe the code)."""
+    build_harness()
+    ok, log = proof_obligations(run, pid, extra_obligations=1,
+                                extra_names=["correspondence_%s: Lang/Check.v mismatches cases = [] and listener tree = grammar reading of the text" % pid])
+    rng = random.Random(run.seed)
+    cases = make_cases(rng, run.tier)
+    corpus_dir = os.path.join(ROOT, "corpus", pid)
+    run.log("running %d rule texts on the implementation" % len(cases))
+    obs = run_lang(cases)
+    mism = evaluate_lang(pid, cases, obs)
+    byid = {c["id"]: c for c in cases}
+    ob = {o["id"]: o for o in obs}
+    run.log("compared inside Coq: %d disagreement(s)" % len(mism))
+    reported = {}
+    for cid, code in mism:
+        c, o = byid[cid], ob[cid]
+        sig = {"kind": "lang-case", "symptom": SYMPTOM_L[code]}
+        if classify:
+            sig.update(classify(c, o, code) or {})
+        key = json.dumps(sig, sort_keys=True)
+        reported[key] = reported.get(key, 0) + 1
+        if reported[key] > 1 or len(reported) > 6:
+            continue
+        exp = ""
+        if code == 0:
+            a, b = o.get("tree", ""), c["expect_tree"]
+            j = next((j for j in range(min(len(a), len(b))) if a[j] != b[j]), 0)
+            exp = " | listener: ...%s... | grammar reading: ...%s..." % (a[max(0, j - 60):j + 60], b[max(0, j - 60):j + 60])
+        run.report(sig, {"text": c["text"], "inject": c["inject"], "rule": c["rule"], "observation": {k: o.get(k) for k in ("class", "ret", "cites", "calls", "store", "errmsg", "compile")},
+                         "disagreement": LCODES[code]},
+                   "%s: %s — rule text: %s%s" % (pid, LCODES[code], c["text"].replace("\n", " | ")[:400], exp))
+    if not ok and not run.violations:
+        run.report({"kind": "proof", "theorem": pid}, {"theorem": "Props/%s.v" % pid, "log": log[-3000:]},
+                   "%s: the Coq development no longer builds and no failing input was found" % pid, no_input=True)
+    cov = run.coverage
+    if not mism:
+        cov["discharged"] += 1
+    keys = set()
+    classes = {}
+    for c in cases:
+        o = ob[c["id"]]
+        classes[o["class"]] = classes.get(o["class"], 0) + 1
+        k = nontrivial(c, o)
+        if k is not None:
+            keys.add(k)
+    cov.update({"evaluations": len(cases), "distinct_nontrivial": len(keys), "rule": rule_text,
+                "outcome_classes": classes, "oversize_skipped": sum(1 for c in cases if c.get("oversize")),
+                "traces_validated_against_impl": len(cases), "disagreements": len(mism),
+                "samples": [{"text": cases[len(cases) // 3]["text"], "inject": cases[len(cases) // 3]["inject"], "observed": {k: ob[cases[len(cases) // 3]["id"]].get(k) for k in ("class", "ret", "cites")}},
+                            {"text": cases[-1]["text"], "observed": {k: ob[cases[-1]["id"]].get(k) for k in ("class", "ret", "cites")}}]})
+    run.assumptions = assumptions + [
+        "reflect primitives behave as the assumed table in Lang/Store.v (which receiver kinds panic); exercised, not proved",
+        "float64 arithmetic is IEEE-754 binary64 round-to-nearest-even without fused operations; the model runs on Coq's primitive floats; float32 values only where exactly representable",
+        "python's float() and Go's strconv.ParseFloat agree on the real literals used (both correctly rounded)",
+        "the ANTLR-generated lexer/parser is covered only end to end: the tree the listener built is compared node by node (shape, operators, operands, positions) with the grammar's reading of the generated text"]
+    return run.finish()
+
+
+def replay_lang(run, data):
+    build_harness()
+    coq_make()
+    rp = data["replay"]
+    print("rule text:\n" + rp["text"])
+    obs = run_lang([{"id": 0, "text": rp["text"], "rule": rp["rule"], "inject": rp["inject"], "tree": False}])
+    print("observation now:", json.dumps({k: obs[0].get(k) for k in ("class", "ret", "cites", "errmsg")})[:800])
+    print("recorded        :", json.dumps({k: rp["observation"].get(k) for k in ("class", "ret", "cites")})[:800])
+    same = all(obs[0].get(k) == rp["observation"].get(k) for k in ("class", "ret", "cites"))
+    print("replay: implementation behaves as recorded:", same)
+    return 1 if same else 0
+
+
+def tree_shape_key(node, depth=0):
+    """structural key of an AST (operators and node kinds, no literals)"""
+    if isinstance(node, dict):
+        return (node.get("t") or node.get("s") or "n", node.get("op"), tuple(tree_shape_key(v) for k, v in sorted(node.items()) if k not in ("pos", "apos", "op", "t", "s", "name")))
+    if isinstance(node, (list, tuple)):
+        return tuple(tree_shape_key(v) for v in node if not isinstance(v, (int, float, str, bool)) or v in ("var", "const", "call", "mapvar", "math", "expr", "bare"))
+    return None
